@@ -11,6 +11,7 @@ import (
 	"path"
 	"path/filepath"
 	"strconv"
+	"strings"
 	"sync"
 	"time"
 
@@ -343,10 +344,17 @@ func (f *STFS) MkdirAll(path string, perm os.FileMode) error {
 	f.ioLock.Lock()
 	defer f.ioLock.Unlock()
 
-	parts := filepath.SplitList(path)
+	parts := strings.Split(filepath.ToSlash(path), "/")
 	currentPath := ""
+	if filepath.IsAbs(path) {
+		currentPath = string(filepath.Separator)
+	}
 
 	for _, part := range parts {
+		if part == "" {
+			continue
+		}
+
 		if currentPath == "" {
 			currentPath = part
 		} else {
